@@ -12,7 +12,7 @@ CONSTANTS
  Waived = {}
  MaxLen = 16
  RetSel = {"i", "S24"}
- ParamSel = {"i","l","p","f","d","e","Si","Sc3","Sd","Sff","Sfff","Sld","Sdl","Sdd","Sll","Sif","Udl","S24","Se","Sc16"}
+ ParamSel = {"See","Sel","i","l","p","f","d","e","Si","Sc3","Sd","Sff","Sfff","Sld","Sdl","Sdd","Sll","Sif","Udl","S24","Se","Sc16"}
  Emit = TRUE
 VIEW GraphView
 INVARIANTS Agree RetAgree CountersAgree TypeOK
